@@ -501,12 +501,12 @@ def run_shard(tier, seed, shard, nshards, res):
             t, p, v, s = combos[(shard * 8 + i + seed) % len(combos)]
             params = {'TIMEOUT': t, 'KEY_PREFIX': p, 'VERSION': v, 'SHARDS': s}
             history(dc, sc, res, rng, params, 'c19 seed=%d shard=%d i=%d' % (seed, shard, i))
-            if res.counters.get('violations_raw', 0) > 8:
+            if res.new_violations() > 8:
                 return
         for i in range(25 if tier == "quick" else 300):
             rng = common.rng_for(seed, 'c19c', shard, i)
             t, p, v, s = combos[(shard * 8 + i + seed) % len(combos)]
             contended_calls(dc, sc, res, rng, {'TIMEOUT': t, 'KEY_PREFIX': p, 'VERSION': v, 'SHARDS': s},
                             'c19 contended seed=%d shard=%d i=%d' % (seed, shard, i))
-            if res.counters.get('violations_raw', 0) > 8:
+            if res.new_violations() > 8:
                 return
